@@ -355,6 +355,11 @@ func (p *Prog) definitelyNonNil(v ssa.Value, r *ssa.Return) bool {
 	switch x := v.(type) {
 	case *ssa.Const:
 		return false
+	case *ssa.UnOp:
+		// a sentinel: package-level error variable that only its package initialiser assigns, from a constructor
+		if g, ok := x.X.(*ssa.Global); ok && x.Op == token.MUL && p.sentinelGlobal(g) {
+			return true
+		}
 	case *ssa.Call:
 		n := CalleeName(&x.Call)
 		if n == "fmt.Errorf" || n == "errors.New" || n == "net.NewConnectionError" || strings.HasSuffix(n, ".NewConnectionError") || n == "errors.Join" {
@@ -385,6 +390,43 @@ func (p *Prog) definitelyNonNil(v ssa.Value, r *ssa.Return) bool {
 		}
 	}
 	return false
+}
+
+// sentinelGlobal: every store to g is in a package initialiser and stores the result of an error constructor.
+func (p *Prog) sentinelGlobal(g *ssa.Global) bool {
+	n := 0
+	for f := range p.All {
+		if f.Pkg != g.Pkg {
+			continue
+		}
+		for _, b := range f.Blocks {
+			for _, ins := range b.Instrs {
+				st, ok := ins.(*ssa.Store)
+				if !ok || st.Addr != ssa.Value(g) {
+					continue
+				}
+				if f.Name() != "init" && !strings.HasPrefix(f.Name(), "init#") {
+					return false
+				}
+				call, ok := st.Val.(*ssa.Call)
+				if !ok {
+					if mi, isMI := st.Val.(*ssa.MakeInterface); isMI {
+						if _, isC := mi.X.(*ssa.Const); !isC {
+							n++
+							continue
+						}
+					}
+					return false
+				}
+				cn := CalleeName(&call.Call)
+				if cn != "errors.New" && cn != "fmt.Errorf" && !strings.HasSuffix(cn, ".NewConnectionError") {
+					return false
+				}
+				n++
+			}
+		}
+	}
+	return n > 0
 }
 
 // Deep is Plain plus interprocedural provenance.
